@@ -6,8 +6,9 @@ persisting, fatal errors not catchable, code after an exit skipped, uncaught thr
 Tie + oracle: exhaustive nestings (depth <= 2 quick / 3 thorough) of {loop, while, for,
 block, if, match arm, try, catch, call} around {break, continue, return, throw, fatal},
 followed by further code, on both real backends == the Lean specification semantics, with
-clean final core state (stack/mp/handlers). Nestings in the zone of the open findings V10/V11
-are run too but judged against the VM *model* (which reproduces them), not against the spec.
+clean final core state (stack/mp/handlers). Every level declares the shadowed canary `k`, so a
+scope that is popped twice or not at all on some way out shows in the code that runs afterwards.
+(The findings V10 and V11 are repaired: every generated nesting is judged against the spec.)
 """
 from gen import nesting
 from vlib import core, progstream, known
@@ -59,8 +60,7 @@ def judge(ctx, cases, label):
 def run(ctx):
     st = core.prepare(ctx, MODULES)
     ctx.assumptions += [
-        "VM part: exits in statement position; break/continue/return do not leave a try body (V10); a throw is caught in the "
-        "activation that raised it or not at all (V11) — nestings outside are judged against the VM model only",
+        "exits are statements (an exit evaluated while operands of an enclosing expression are pending is the open finding V8)",
     ]
     if not st["harness"] or not st["dump"] or not st["model"]:
         ctx.violation({"kind": "build", "log": st.get("log", "")[-3000:]}, "harness, table dump or Lean model no longer builds", no_input=True)
@@ -71,7 +71,7 @@ def run(ctx):
     ctx.coverage["exhaustive"] = True
     for i in range(0, len(cases), 1500):
         judge(ctx, cases[i:i + 1500], "C11")
-    ctx.coverage["rule"] = ("all legal nestings of depth <= %d of 9 constructs around 5 exits, each followed by code that prints "
+    ctx.coverage["rule"] = ("all legal nestings of depth <= %d of 9 constructs around 6 exits, each followed by code that prints "
                             "locals, re-enters loops and calls the function again; non-trivial = every case (each exercises an exit)"
                             % (2 if ctx.tier == "quick" else 3))
     ctx.coverage["traces_validated_against_impl"] = ctx.evaluations
